@@ -26,10 +26,11 @@ import (
 // the order of types / sorters / values / fields in the output.
 
 type c14obs struct {
-	repeat string   // same | differs:<mode> | err:<...>
-	order  []string // observed order (meaning depends on the generator)
-	clone  []string
-	print  []string
+	compiles bool     // the reference output builds with its package (only looked at for shapes whose legality is in question)
+	repeat   string   // same | differs:<mode> | err:<...>
+	order    []string // observed order (meaning depends on the generator)
+	clone    []string
+	print    []string
 }
 
 func (it *item) srcArgs() (src string, args []string) {
@@ -230,6 +231,13 @@ func (w *world) observe14(header string, k int) *c14obs {
 			}
 		}
 	}
+	if it.gc != nil && it.gc.shape == "collide" {
+		bld := exec.Command("go", "build", ".")
+		bld.Dir = filepath.Join(base, "f0", "rp")
+		bld.Env = w.env
+		_, berr := bld.CombinedOutput()
+		o.compiles = berr == nil
+	}
 	// once per case: the run made over a DIFFERENT, longer previous output (more -types / more
 	// options before) must write what a fresh package gets
 	if prev := it.prevArgs(); prev != nil && o.repeat == "" {
@@ -302,6 +310,56 @@ func (w *world) observe14(header string, k int) *c14obs {
 	return o
 }
 
+// inprocVsCLI generates one definition inside this process (after whatever this process generated
+// before) and in a separate process, each into a fresh package of its own, and compares the bytes.
+func (w *world) inprocVsCLI(header string) string {
+	it, err := parseHeader(header)
+	if err != nil {
+		return "bad-op"
+	}
+	w.mu.Lock()
+	base := filepath.Join(w.root, "m", fmt.Sprintf("s%d", w.nPkg))
+	w.nPkg++
+	w.mu.Unlock()
+	defer func() {
+		if os.Getenv("VERIF_KEEP") == "" {
+			os.RemoveAll(base)
+		}
+	}()
+	it.pkg = "rp"
+	src, args := it.srcArgs()
+	genName := "defs." + it.gen + ".go"
+	var outs [2][]byte
+	var errs [2]error
+	for k, name := range []string{"in", "cli"} {
+		d := filepath.Join(base, name, "rp")
+		os.MkdirAll(d, 0o755)
+		os.WriteFile(filepath.Join(d, "defs.go"), []byte(src), 0o644)
+		w.mu.Lock()
+		w.genRuns++
+		if k == 0 {
+			errs[k] = w.inProcess(it, d)
+		}
+		w.mu.Unlock()
+		if k == 1 {
+			cmd := exec.Command(w.bins[it.gen], args...)
+			cmd.Dir = d
+			cmd.Env = append(append([]string{}, w.env...), "PWD="+d, "GOFILE=defs.go", "GOPACKAGE=rp")
+			_, errs[k] = cmd.CombinedOutput()
+		}
+		outs[k], _ = os.ReadFile(filepath.Join(d, genName))
+	}
+	switch {
+	case errs[0] != nil && errs[1] != nil:
+		return "same"
+	case errs[0] != nil || errs[1] != nil:
+		return "differs:error-in-one-mode"
+	case !bytes.Equal(outs[0], outs[1]):
+		return "differs:in-process-vs-separate-process"
+	}
+	return "same"
+}
+
 func exprStr(e ast.Expr) string {
 	switch x := e.(type) {
 	case *ast.StarExpr:
@@ -336,6 +394,9 @@ func (m *impl14) Exec(line string) string {
 	}
 	if len(ws) < 2 || ws[0] != "go_" {
 		return "bad-op"
+	}
+	if ws[1] == "inproc" && len(ws) >= 3 {
+		return m.w.inprocVsCLI("case go_ " + strings.Join(ws[2:], " "))
 	}
 	if ws[1] == "repeat" && len(ws) == 3 {
 		k, err := strconv.Atoi(ws[2])
@@ -394,6 +455,9 @@ func run14(f *hx.Flags, w *world) {
 		k := "C14:" + strings.Join(ws[1:min(3, len(ws))], ":")
 		if len(ws) > 1 && ws[1] == "repeat" {
 			k = "C14:repeat:" + d.Impl
+		}
+		if len(ws) > 2 && ws[1] == "inproc" {
+			return "C14:" + ws[2] + ":inproc:" + d.Impl
 		}
 		if len(d.Case.Lines) > 0 {
 			k = strings.Replace(k, "C14:", "C14:"+strings.Fields(d.Case.Lines[0])[2]+":", 1)
@@ -530,6 +594,14 @@ func run14(f *hx.Flags, w *world) {
 		}
 		add(hx.Case{Lines: ls, Domain: true, Nontrivial: c.shape != "plain" || len(c.traits) >= 2 || c.n >= 2, Tags: []string{"genum", "genum:" + c.shape}})
 	}
+	// names that differ only by case under -caseInsensitive: in the domain only if the generator
+	// handles them (its output builds); the pinned generator writes two equal cases -> a C13 matter
+	collide := &genumCase{n: 7, under: "int", shape: "collide", traits: cols("ustr"), opts: [5]bool{true, true, true, true, false}}
+	{
+		ls := lines14(collide.header(), k)
+		kOf[ls[0]] = k
+		add(hx.Case{Lines: ls, Domain: false, Nontrivial: true, Tags: []string{"genum", "genum:collide"}})
+	}
 	// observe the cases with a few workers (the in-process runs are serialised: they chdir)
 	{
 		var wg sync.WaitGroup
@@ -558,7 +630,43 @@ func run14(f *hx.Flags, w *world) {
 		wg.Wait()
 	}
 	for _, c := range queue {
+		if strings.Contains(c.Lines[0], "shape=collide") {
+			if o := m.obs[c.Lines[0]+"#"+strconv.Itoa(kOf[c.Lines[0]])]; o != nil && o.compiles {
+				c.Domain = true
+			}
+			r.Res.Extra["case_collision_in_domain"] = c.Domain
+		}
 		r.Add(c)
+	}
+	// one-process sessions: SEVERAL different definitions from different packages generated one
+	// after the other inside this process, each compared with a separate-process generation.
+	// Same-spelled trait types: `Pa` first without, then with its own unmarshalers; `Pb` the other
+	// way round (a process-wide memo can only be wrong for the second of a pair).
+	{
+		opts := [5]bool{true, true, true, false, false}
+		others := []string{
+			strings.TrimPrefix((&gsortCase{fields: []gsortField{{"A", "int", []string{"ByA,1"}}, {"B", "string", []string{"*ByBP,1"}}}}).header(), "case gg "),
+			strings.TrimPrefix((&gerrorCase{fields: []gerrField{{"Code", "int", "pc"}}}).header(), "case gg "),
+			strings.TrimPrefix((&genumCase{n: 2, under: "int", shape: "plain", traits: cols("label+p,dur"), opts: opts}).header(), "case gg "),
+		}
+		if g.thorough {
+			for i := 0; i < r.N(20); i++ {
+				others = append(others, strings.TrimPrefix(g.randomGenum().header(), "case gg "),
+					strings.TrimPrefix(g.randomGsort().header(), "case gg "), strings.TrimPrefix(g.randomGerror().header(), "case gg "))
+			}
+		}
+		r.Rng.Shuffle(len(others), func(i, j int) { others[i], others[j] = others[j], others[i] })
+		pair := func(kind string) string {
+			return strings.TrimPrefix((&genumCase{n: 2, under: "int", shape: "plain", traits: cols(kind + "+p"), opts: opts}).header(), "case gg ")
+		}
+		seq := []string{pair("pa0"), others[0], pair("pb1"), pair("pa1")}
+		seq = append(seq, others[1:]...)
+		seq = append(seq, pair("pb0"))
+		ls := []string{"case go_ session"}
+		for _, d := range seq {
+			ls = append(ls, "go_ inproc "+d)
+		}
+		r.Add(hx.Case{Lines: ls, Domain: true, Nontrivial: true, Tags: []string{"session"}})
 	}
 	r.Res.Extra["generator_runs"] = w.genRuns
 	r.Res.Extra["rounds_per_case"] = k
